@@ -8,6 +8,7 @@ import (
 	"runtime/debug"
 	"sort"
 	"strconv"
+	"time"
 	"strings"
 
 	"golang.org/x/tools/go/ssa"
@@ -30,6 +31,7 @@ type Obligation struct {
 	Small    []*Term // "prefer a small counterexample" constraints (slice lengths within the replay window)
 	Contract *Contract
 	Order    []string // solver order override (lemmas: cvc5 first)
+	MinTimeout time.Duration // option timeout=N of the contract
 }
 
 type FuncResult struct {
@@ -282,6 +284,13 @@ func (p *Program) VerifyFunc(c *Contract) (res *FuncResult) {
 		if s := c.Options["solvers"]; s != "" {
 			// solver order for this function's obligations (e.g. cvc5 first for div/mod decompositions)
 			o.Order = strings.Split(s, ",")
+		}
+		if s := c.Options["timeout"]; s != "" {
+			// `option timeout=N`: these obligations get at least N seconds also in the quick tier (measured well below
+			// N on an idle machine; the margin is for a loaded one)
+			if n, err := strconv.Atoi(s); err == nil && n > 0 {
+				o.MinTimeout = time.Duration(n) * time.Second
+			}
 		}
 		res.Obligations = append(res.Obligations, o)
 		return o
